@@ -13,7 +13,9 @@
 #[path = "../pixel_common.rs"]
 mod pixel_common;
 
+use dicom_encoding::{Codec, TransferSyntaxIndex};
 use dicom_pixeldata::PixelDecoder;
+use dicom_transfer_syntax_registry::TransferSyntaxRegistry;
 use pixel_common::*;
 use serde_json::{json, Value};
 use vcommon::*;
@@ -21,7 +23,15 @@ use vcommon::*;
 struct Decoded {
     whole: Result<Vec<u8>, String>,
     per: Vec<Result<Vec<u8>, String>>,
+    /// the registry's RLE pixel data reader, frames 0..n-1 decoded one after another into ONE Vec
+    acc: Result<Vec<u8>, String>,
+    /// the reader's decode_frame(k) into a Vec pre-filled with SENTINEL (full Vec returned)
+    pre: Vec<Result<Vec<u8>, String>>,
+    /// the reader's decode (whole object) into a Vec pre-filled with SENTINEL
+    pre_whole: Result<Vec<u8>, String>,
 }
+
+const SENTINEL: [u8; 5] = [0xA5, 0x5A, 0xC3, 0x3C, 0x99];
 
 fn res_json(r: &Result<Vec<u8>, String>) -> Value {
     match r {
@@ -45,7 +55,48 @@ fn decode_all(spec: &ImgSpec, frags: &[Vec<u8>]) -> Decoded {
             Err(p) => Err(format!("panic: {p}")),
         });
     }
-    Decoded { whole, per }
+    // the adapter's public interface: output is appended to the destination vector
+    let ts = TransferSyntaxRegistry.get(RLE).expect("RLE Lossless in the registry");
+    let (acc, pre, pre_whole) = match ts.codec() {
+        Codec::EncapsulatedPixelData(Some(reader), _) => {
+            let acc = match catch(|| {
+                let mut dst = Vec::new();
+                for k in 0..spec.frames {
+                    reader.decode_frame(&obj, k, &mut dst).map_err(|e| format!("frame {k}: {e}"))?;
+                }
+                Ok::<_, String>(dst)
+            }) {
+                Ok(Ok(d)) => Ok(d),
+                Ok(Err(e)) => Err(format!("error: {e}")),
+                Err(p) => Err(format!("panic: {p}")),
+            };
+            let mut pre = Vec::new();
+            for k in 0..spec.frames {
+                pre.push(match catch(|| {
+                    let mut dst = SENTINEL.to_vec();
+                    reader.decode_frame(&obj, k, &mut dst).map(|_| dst)
+                }) {
+                    Ok(Ok(d)) => Ok(d),
+                    Ok(Err(e)) => Err(format!("error: {e}")),
+                    Err(p) => Err(format!("panic: {p}")),
+                });
+            }
+            let pre_whole = match catch(|| {
+                let mut dst = SENTINEL.to_vec();
+                reader.decode(&obj, &mut dst).map(|_| dst)
+            }) {
+                Ok(Ok(d)) => Ok(d),
+                Ok(Err(e)) => Err(format!("error: {e}")),
+                Err(p) => Err(format!("panic: {p}")),
+            };
+            (acc, pre, pre_whole)
+        }
+        _ => {
+            let e = Err("RLE Lossless has no pixel data reader in the registry".to_string());
+            (e.clone(), vec![e.clone(); spec.frames as usize], e)
+        }
+    };
+    Decoded { whole, per, acc, pre, pre_whole }
 }
 
 fn replay(cases_path: &str) {
@@ -75,6 +126,26 @@ fn replay(cases_path: &str) {
         match &d.whole {
             Ok(b) if *b == expect_whole => {}
             r => bad("whole", jb(&expect_whole), res_json(r)),
+        }
+        // the adapter itself: frames decoded successively into one vector = concatenation of the frames
+        match &d.acc {
+            Ok(b) if *b == expect_whole => {}
+            r => bad("adapter frames accumulated in one vector", jb(&expect_whole), res_json(r)),
+        }
+        // ... and output is appended: what the destination already holds stays untouched
+        for (k, r) in d.pre.iter().enumerate() {
+            let want: Vec<u8> = SENTINEL.iter().chain(expect[k].iter()).copied().collect();
+            match r {
+                Ok(b) if *b == want => {}
+                _ => bad("adapter frame appended to a non-empty vector", jb(&want), res_json(r)),
+            }
+        }
+        {
+            let want: Vec<u8> = SENTINEL.iter().chain(expect_whole.iter()).copied().collect();
+            match &d.pre_whole {
+                Ok(b) if *b == want => {}
+                r => bad("adapter whole appended to a non-empty vector", jb(&want), res_json(r)),
+            }
         }
         // whole = concatenation of the per-frame results (observed vs observed)
         if let Ok(w) = &d.whole {
@@ -208,6 +279,10 @@ fn record(n: usize, out: &str, max_dim: i64, max_frames: i64) {
             "frags": jbb(&frags),
             "whole": res_json(&d.whole),
             "per": Value::Array(d.per.iter().map(res_json).collect()),
+            "sentinel": jb(&SENTINEL),
+            "acc": res_json(&d.acc),
+            "pre": Value::Array(d.pre.iter().map(res_json).collect()),
+            "pre_whole": res_json(&d.pre_whole),
         }));
     }
     let lines = w.finish();
